@@ -613,7 +613,100 @@ def history_strategy(tier):
                                   "backend": st.sampled_from(["scripted", "scripted", "real"]), "aws": st.booleans(), "addr_style": st.sampled_from([0, 0, 1, 2, 3]), "events": st.lists(ev, min_size=1, max_size=40)})
 
 
+# ---- two users of one hash client --------------------------------------------------------------------------------------
+
+def two_users_cases(tier, seed):
+    for ra in (0, 1, 2):
+        for ie in (False, True):
+            for phase in ("healthy-then-fails", "retry-due", "budget-used-up", "given-up-and-back"):
+                for opn in ("get", "set", "get_many", "set_many"):
+                    for mask in ((0, 1, 2, 3, 5, 6, 10, 13) if tier == "quick" else range(32)):
+                        yield {"retry_attempts": ra, "ignore_exc": ie, "phase": phase, "op": opn, "choices": [(mask >> b) & 1 for b in range(5)] + [1, 0, 0, 1, 1, 0, 1, 0, 0, 1] * 3}
+
+
+def check_two_users(case):
+    """two users of one HashClient(use_pooling=True) - threads, or tasks that switch at socket calls (connect, send, receive,
+    close) - make a key-addressed call for the same server at the same time, while that server fails, is being retried, has
+    used its retries up, or is back after having been given up: what escapes is the server's own error or 'all servers down',
+    never an error of the bookkeeping, and nothing with ignore_exc; afterwards, healthy again, the rotation recovers"""
+    from vlib import interleave
+    ra, ie, phase, opn = case["retry_attempts"], case["ignore_exc"], case["phase"], case["op"]
+    servers = [("s0", 11211), ("s1", 11211)]
+    names = [name(s) for s in servers]
+    key = next(k for k, n in owned_keys(names).items() if n == names[0])
+    clock = Clock(1000)
+    saved = H.time
+    H.time = _T(clock)
+    desc = "two users at once: %s for a key of %s; retry_attempts %d, ignore_exc %r, phase %s, hand-over pattern %r" % (opn, names[0], ra, ie, phase, case["choices"][:5])
+    try:
+        env = Env(addrs=servers)
+        env.clock = clock
+        for s in env.servers:
+            s.clock = clock
+        hc = HashClient(servers, use_pooling=True, max_pool_size=4, socket_module=env.net, retry_attempts=ra, retry_timeout=RT, dead_timeout=DT, ignore_exc=ie,
+                        default_noreply=False)
+
+        def one():
+            if opn == "get":
+                return hc.get(key)
+            if opn == "set":
+                return hc.set(key, b"v")
+            if opn == "get_many":
+                return hc.get_many([key, "zz"])
+            return hc.set_many({key: b"v"})
+        # two connections sit idle in the failing server's pool (earlier overlapping use)
+        interleave.run(env.net, [one, one], choices=[1, 1, 1, 1, 1, 1])
+        srv = env.servers[0]
+
+        def quiet():
+            try:
+                one()
+            except Exception:  # noqa: BLE001
+                pass
+        if phase != "healthy-then-fails":
+            srv.down = "refused"
+            quiet()
+            if phase in ("budget-used-up", "given-up-and-back"):
+                for _ in range(ra + (1 if phase == "given-up-and-back" else 0)):
+                    clock.advance(RT + 0.5)
+                    quiet()
+            clock.advance(RT + 0.5)
+            if phase == "given-up-and-back":
+                srv.down = None
+                clock.advance(DT + 1)
+            elif phase == "retry-due":
+                srv.down = None
+        else:
+            srv.down = "reset-recv"
+        out, sc = interleave.run(env.net, [one, one], choices=case["choices"], kinds=("connect", "sendall", "recv", "close"))
+        for u, r in enumerate(out):
+            if r[0] == "exc":
+                e = r[1]
+                if ie:
+                    raise Violation(["two-users", "escaped-with-ignore_exc", type(e).__name__], "user %d's call raised %r: %s" % (u, e, desc))
+                if not isinstance(e, (OSError, MemcacheError)):
+                    raise Violation(["two-users", "bookkeeping-error", type(e).__name__], "user %d's call raised %r, neither the failing server's error nor 'all servers down': %s" % (u, e, desc))
+        # recovery: everything healthy, two dead_timeouts of traffic
+        srv.down = None
+        for _ in range(4):
+            clock.advance(DT / 2 + 1)
+            quiet()
+            try:
+                hc.get("zz")
+            except Exception:  # noqa: BLE001
+                pass
+        if sorted(hc.hasher.nodes) != sorted(names):
+            raise Violation(["two-users", "no-recovery"], "two dead_timeouts of traffic after the server healed the rotation is %r, not %r: %s" % (sorted(hc.hasher.nodes), sorted(names), desc))
+        hc.close()
+        if env.net.open_sockets():
+            raise Violation(["two-users", "socket-left-open"], "sockets left open after close(): %s" % desc)
+    finally:
+        H.time = saved
+    return sc.switches > 0, ["two-users", phase, "ra=%d" % ra, "ie=%s" % ie]
+
+
 PARTS = [
+    Part("two-users-at-once", "enum", check_two_users, cases=two_users_cases, exhaustive=True),
     Part("exhaustive-depth", "enum", check, cases=exhaustive_cases, exhaustive=True, minimise=minimise, distinct_by_construction=True),
     Part("probe-trains", "enum", check, cases=probe_train_cases, exhaustive=True, minimise=minimise, distinct_by_construction=True),
     Part("real-probe-trains", "enum", check, cases=real_train_cases, exhaustive=True, minimise=minimise, distinct_by_construction=True),
